@@ -23,7 +23,7 @@ func runC10(r *Run, p *Prog) {
 		r.Unresolved("S1", "connection loop / HandleMessage")
 		return
 	}
-	entry := dispatchEntry(p, ro)
+	entry := dispatchView(p, ro)
 	if entry == nil {
 		r.Unresolved("S1", "dispatch entry")
 		return
